@@ -986,8 +986,16 @@ def ep_empty(prog: Program) -> RuleResult:
     return r
 
 
+def _ep_bound(prog):
+    # a value that is bound already is used as it is, whatever it is: re-enumerating it (a falsy element of a flattened collection taken
+    # for 'not bound') gives rows that are no consistent assignment
+    from .c02 import ep_bound
+
+    return ep_bound(prog)
+
+
 def run(prog: Program, tier: str) -> List[RuleResult]:
     from .c03 import domain_cache
 
     _cache.clear()
-    return [ep_thread(prog), ep_neg(prog), ep_filter(prog), ep_selected(prog), ep_union_pass(prog), ep_operand(prog), domain_cache(prog), ep_universal(prog), ep_empty(prog), ep_quant(prog)]
+    return [ep_thread(prog), ep_neg(prog), ep_filter(prog), ep_selected(prog), ep_union_pass(prog), ep_operand(prog), domain_cache(prog), ep_universal(prog), ep_empty(prog), ep_quant(prog), _ep_bound(prog)]
